@@ -173,16 +173,32 @@ def run_component(name, pi, seed, labelers):
             return outs[0]
         if name == 'astar':
             from msdm.algorithms.search import AStarSearch
-            res = AStarSearch(seed=seed, tie_breaking_strategy='random', randomize_action_order=True).plan_on(mdp)
-            return canon([res.path, res.path_value, res.visited])
+            stored = {s: list(mdp.actions(s)) for s in states}
+            snapshot = {repr(s): [repr(a) for a in v] for s, v in stored.items()}
+            mdp.actions = lambda s: stored[s]
+            outs = []
+            for _ in range(2):
+                res = AStarSearch(seed=seed, tie_breaking_strategy='random', randomize_action_order=True).plan_on(mdp)
+                outs.append(canon([res.path, res.path_value, res.visited]))
+            if outs[0] != outs[1] or {repr(s): [repr(a) for a in v] for s, v in stored.items()} != snapshot:
+                raise SecondCallDiffers(name)
+            return outs[0]
         if name == 'astar_tie':
             from msdm.algorithms.search import AStarSearch
             res = AStarSearch(seed=seed, tie_breaking_strategy='random', randomize_action_order=False).plan_on(mdp)
             return canon([res.path, res.path_value, res.visited])
         if name == 'bfs':
             from msdm.algorithms.search import BreadthFirstSearch
-            res = BreadthFirstSearch(seed=seed, randomize_action_order=True).plan_on(mdp)
-            return canon([res.path, res.visited])
+            stored = {s: list(mdp.actions(s)) for s in states}
+            snapshot = {repr(s): [repr(a) for a in v] for s, v in stored.items()}
+            mdp.actions = lambda s: stored[s]          # the problem hands out its own stored list of actions
+            outs = []
+            for _ in range(2):
+                res = BreadthFirstSearch(seed=seed, randomize_action_order=True).plan_on(mdp)
+                outs.append(canon([res.path, res.visited]))
+            if outs[0] != outs[1] or {repr(s): [repr(a) for a in v] for s, v in stored.items()} != snapshot:
+                raise SecondCallDiffers(name)
+            return outs[0]
         if name in ('qlearning', 'sarsa', 'expectedsarsa', 'doubleq'):
             import msdm.algorithms.tdlearning as td
             cls = {'qlearning': td.QLearning, 'sarsa': td.SARSA, 'expectedsarsa': td.ExpectedSARSA, 'doubleq': td.DoubleQLearning}[name]
@@ -244,7 +260,20 @@ def run_component(name, pi, seed, labelers):
             d2 = ImplicitDistribution(func, n_samples=30, _seed=seed)
             samples = [d2.sample() for _ in range(10)]
             d3 = ImplicitDistribution(func, n_samples=30, _seed=seed).marginalize(lambda e: repr(e)[-1])
-            return canon([items, samples, dict(d3.items())])
+            # a conditioned child sampled with an explicit, equally seeded generator, alone and interleaved with its parent
+            parent = ImplicitDistribution(func, n_samples=30, _seed=seed)
+            child = parent.condition(lambda e: e != sl(0))
+            alone = [child.sample(rng=random.Random(5)) for _ in range(3)]
+            g1 = random.Random(5)
+            inter = []
+            for _ in range(6):
+                parent.sample()
+                inter.append(child.sample(rng=g1))
+            g2 = random.Random(5)
+            expect = [ImplicitDistribution(func, n_samples=30, _seed=99).condition(lambda e: e != sl(0)).sample(rng=g2) for _ in range(6)]
+            if inter != expect or alone != [expect[0]] * 3:
+                raise SecondCallDiffers(name)
+            return canon([items, samples, dict(d3.items()), inter])
         if name == 'mdp_rollout':
             pol = FunctionalPolicy(lambda s: DictDistribution({al('a'): 0.5, al('b'): 0.5}))
             traj = pol.run_on(mdp, rng=random.Random(seed))
@@ -278,19 +307,30 @@ def set_globals(k):
         np.random.rand()
 
 
+STR_SEED_OK = ('laostar', 'lrtdp', 'astar', 'astar_tie', 'bfs', 'qlearning', 'sarsa', 'expectedsarsa', 'doubleq', 'rmax',
+               'implicit', 'mdp_rollout', 'pomdp_rollout')      # components whose seed goes to random.Random (accepts str)
+
+
 def seeds_for(tier, seed):
     base = [0, 1, 2] if tier == 'quick' else [0, 1, 2, 3, 4, 5]
     return sorted(set(base + [int(seed) % 100000]))
 
 
+def seeds_of(component, tier, seed):
+    out = list(seeds_for(tier, seed))
+    if component in STR_SEED_OK:
+        out.append('pilot-7')        # a string is a legal seed for random.Random; its builtin hash is salted per process
+    return out
+
+
 def items(tier, seed):
     for c in COMPONENTS:
         for pi in range(len(MDPS) if c not in ('astar', 'astar_tie', 'bfs') else 1):
-            yield ('iso', c, pi, tuple(seeds_for(tier, seed)))
+            yield ('iso', c, pi, tuple(seeds_of(c, tier, seed)))
             yield ('salt', c, pi, tuple(seeds_for(tier, seed)[:2]))
     hs = [0, 1, 2, 3] if tier == 'quick' else list(range(16))
     for g in range(0, len(COMPONENTS), 4):
-        yield ('proc', tuple(COMPONENTS[g:g + 4]), tuple(hs), tuple(seeds_for(tier, seed)[:2]))
+        yield ('proc', tuple(COMPONENTS[g:g + 4]), tuple(hs), tuple(seeds_for(tier, seed)[:2]) + ('pilot-7',))
 
 
 def check(item, tier):
@@ -392,16 +432,18 @@ def check(item, tier):
 
 def worker_main(argv):
     comps = argv[0].split(',')
-    seeds = [int(x) for x in argv[1].split(',')]
+    seeds = [int(x) if x.lstrip('-').isdigit() else x for x in argv[1].split(',')]
     out = {}
     lab = make_labelers('str')
     for c in comps:
         for pi in range(len(MDPS) if c not in ('astar', 'astar_tie', 'bfs') else 1):
             for sd in seeds:
+                if isinstance(sd, str) and c not in STR_SEED_OK:
+                    continue
                 try:
-                    out['%s|%d|%d' % (c, pi, sd)] = json.dumps(run_component(c, pi, sd, lab))
+                    out['%s|%d|%s' % (c, pi, sd)] = json.dumps(run_component(c, pi, sd, lab))
                 except Exception as e:
-                    out['%s|%d|%d' % (c, pi, sd)] = 'EXC ' + repr(e)[:200]
+                    out['%s|%d|%s' % (c, pi, sd)] = 'EXC ' + repr(e)[:200]
     print(json.dumps(out))
 
 
